@@ -150,6 +150,7 @@ def guard_pairs(ctx, cls, meth):
     if fi is None:
         return None, set()
     out = set()
+    sites = {}
     for p in paths_of(ctx, fi, cls):
         if p.outcome[0] == "raise" and p.outcome[1].get("kind") == "explicit" and is_error_class(ctx.model, p.outcome[1].get("cls")):
             # guarded raise:  if <cond>: raise X   (the raise directly follows the assumption, not a handler / loop exit)
@@ -164,6 +165,13 @@ def guard_pairs(ctx, cls, meth):
             if atoms:
                 continue        # guard over obj / parsed data: one-sided by nature
             out.add((last, p.outcome[1].get("cls")))
+            sites.setdefault(id(evs[-1].node), set()).add(last)
+    # a condition under which the same raise statement is reached with either polarity does not guard it (it only chooses, say, how the
+    # message is worded -- as a conditional expression or as an if statement before the raise)
+    for conds in sites.values():
+        for c_ in list(conds):
+            if N.mk_not(c_) in conds:
+                out = {(g_, k_) for g_, k_ in out if g_ != c_}
     return fi, out
 
 
@@ -374,7 +382,7 @@ def focusedseq_focus(ctx, rule):
             if len(subs) != 1 or not p.returns:
                 continue
             e = subs[0]
-            focus = [c for c in p.guards() if c[0] == "cmp" and c[1] in ("==", "!=") and any(x == ("attr", e["target"], "name") for x in c[2:])]
+            focus = sorted({c for c in p.guards() if c[0] == "cmp" and c[1] in ("==", "!=") and any(x == ("attr", e["target"], "name") for x in c[2:])})
             if len(focus) != 1:
                 ok = False
                 continue
@@ -387,7 +395,7 @@ def focusedseq_focus(ctx, rule):
             ok = ok and len(other) == 1 and other[0][0] == "eval" and other[0][1] == N.selfattr("parsebuildfrom")
             if meth == "_build":
                 o = e["obj"]
-                ok = ok and o[0] == "ite" and ((o[1] == focus[0] and (o[2], o[3]) == (OBJ, N.NONE)) if focus[0][1] == "==" else (o[1] == N.mk_not(focus[0]) and (o[2], o[3]) == (OBJ, N.NONE)))
+                ok = ok and o == (OBJ if focus[0][1] == "==" else N.NONE)
         ctx.ob(rule, fi, ok and seen >= 2, "FocusedSeq.%s: the member named parsebuildfrom is the one in focus (its result is returned%s)" % (meth, "; it alone receives obj" if meth == "_build" else ""), key="FocusedSeq %s focus" % meth)
 
 
@@ -543,10 +551,13 @@ def run(ctx):
     ctx.ob("C01.R5", fi, ok, "Rebuild._build builds EVAL(func) (not obj) and returns the sub-build result", key="Rebuild")
     ctx.ob("C01.R5", "Rebuild", "_parse" not in M.cls("Rebuild").methods and "_parse" not in M.cls("Default").methods, "Rebuild and Default parse like the wrapped construct", key="Rebuild/Default parse", loc=fi.loc)
     fi, paths = own_method_paths(ctx, "Default", "_build")
-    ok = len(paths) == 1
-    if ok:
-        sb = paths[0].of("SUB")
-        ok = len(sb) == 1 and sb[0]["obj"] == N.mk_ite(N.mk_cmp("is", OBJ, N.NONE), ("eval", N.selfattr("value"), CTX), OBJ) and paths[0].retval == sb[0]["res"]
+    isnone = N.mk_cmp("is", OBJ, N.NONE)
+    rets = [p for p in paths if p.returns]
+    ok = bool(rets) and {decided(p, isnone) for p in rets} == {True, False}
+    for p in rets:
+        sb = p.of("SUB")
+        want = ("eval", N.selfattr("value"), CTX) if decided(p, isnone) else OBJ
+        ok = ok and len(sb) == 1 and sb[0]["obj"] == want and p.retval == sb[0]["res"]
     ctx.ob("C01.R5", fi, ok, "Default._build builds obj unless it is None, then EVAL(value)", key="Default")
 
     identical_directions(ctx, "C01.R5", ("Computed", "Index", "Tell", "Seek", "Pointer", "Check", "StopIf"))
